@@ -5,7 +5,7 @@ TRANSLATORS = [('consts2coq.py', ['coq/Gen/Consts.v'])]
 GEN_FILES = ['coq/Gen/Consts.v']
 COQ_TARGETS = ['Properties_C09.vo', 'Proof/ConstsRegp.vo']
 HARNESS_MODS = ['rp']
-RULE = 'cases: rp.serve serial mem16 style blocksize l:allocscript h:stream l:verdicts - session histories on exact-size heap blocks handed out by a scripted, ledger-keeping allocator (ASan sees every access outside the block; the backend fills/reads exactly unit*blocksize octets of the buffer it is given); obs per round: return code, error id, frame, backend calls, reply octets, allocations, releases, foreign releases, blocks outstanding at the end.  Streams: every frame length around the receive limit and every read size around the transmit limit (and at 2^16, 2^24, 2^30, 2^31, 2^32-1) for block sizes 65.. , with and without allocation failure, short and empty frames, random and mutated-valid streams, every option-bit combination.  Non-trivial: every case; distinct = distinct lines.'
+RULE = 'cases: rp.serve serial mem16 style blocksize l:allocscript h:stream l:verdicts (style 0 chunk / 1 octet source; 2 / 3: every length-prefix case is served again from a chunk source that lends a 5- / 64-octet transfer buffer through the getbuffer extension, so that the receive sink sees multi-octet chunks) - session histories on exact-size heap blocks handed out by a scripted, ledger-keeping allocator (ASan sees every access outside the block; the backend fills/reads exactly unit*blocksize octets of the buffer it is given); obs per round: return code, error id, frame, backend calls, reply octets, allocations, releases, foreign releases, blocks outstanding at the end.  Streams: every frame length around the receive limit and every read size around the transmit limit (and at 2^16, 2^24, 2^30, 2^31, 2^32-1) for block sizes 65.. , with and without allocation failure, short and empty frames, random and mutated-valid streams, every option-bit combination.  Non-trivial: every case; distinct = distinct lines.'
 TRUSTED_BASE = TB_COMMON + ['Model/Regp.v is hand-written from src/register-protocol.c, src/endpoints/continuable-sink.c and doc/regp.txt; tie = correspondence']
 ASSUMPTIONS = ['little-endian host']
 EXHAUSTIVE = {'quick': False, 'thorough': False}
@@ -13,7 +13,7 @@ TECHNIQUE = 'Coq proof (reception case analysis, allocator ledger, stored-inside
 LEVEL_TEXT = "Theorems in Properties_C09.v about Model/Regp.v for any source, block size and allocator verdict: the complete case analysis of a reception (channel error -> block released by the receiver; empty frame -> bad header encoding, nothing allocated; allocation failure -> EBUSY reply; oversize frame -> ENOMEM + receive-overflow reply from the stored header octets; else the parser's verdict); every allocated block is released exactly once (receiver on channel error, caller otherwise); accepted frames lie inside the block; the read buffer handed to the backend holds the requested block and lies behind the header inside the block, otherwise ETXOVERFLOW with the buffer size; allocations = releases after every round of any session history.  Real memory accesses, crashes and hangs of the compiled code are observed by ASan/UBSan and the driver timeout on the executed cases only (partial: the model carries the index arithmetic, not the C memory model)."
 LEVEL_NOTE = 'Partial: memory safety of the compiled code is observed (ASan/UBSan) on executed cases; the theorems cover index arithmetic, classification and the ledger. Trusted: Coq kernel; hand model; correspondence. No axioms.'
 
-def gen(rng, tier):
+def gen0(rng, tier):
     big = tier == 'thorough'
     yield from gen_serve_bounds(rng, [65, 66, 76, 77, 78, 79, 80, 81, 82, 96, 128] + ([67, 70, 90, 100, 129, 200, 256, 1024] if big else []))
     yield from gen_serve(rng, 6000 if big else 400)
@@ -22,3 +22,6 @@ def gen(rng, tier):
 
 def nontrivial(c):
     return True
+
+def gen(rng, tier):
+    yield from with_lending(gen0(rng, tier))
